@@ -240,6 +240,17 @@ def expand_locals(func, expr, depth=4):
     return cur
 
 
+def module_sentinels(mod):
+    """Names bound once at module level to ``object()`` (identity markers)."""
+    out = set()
+    for gname, gvals in mod.globals.items():
+        if len(gvals) == 1 and isinstance(gvals[0], ast.Call) and \
+                isinstance(gvals[0].func, ast.Name) and \
+                gvals[0].func.id == 'object' and not gvals[0].args:
+            out.add(gname)
+    return out
+
+
 def module_const(mod, expr):
     """Python value of ``expr`` if it is a literal or a Name bound (once) at
     module level to a literal tuple/list/set/frozenset/dict/str; else raises
